@@ -60,7 +60,7 @@ class C09(Check):
     def run(self, ctx):
         env = ops_mod.Env(ctx)
         try:
-            for phase in (self.corpus, self.exhaustive, self.on_valid_sheets, self.boundary, self.blocks, self.random_walks):
+            for phase in (self.corpus, self.exhaustive, self.on_valid_sheets, self.boundary, self.blocks, self.around, self.random_walks):
                 ctx.phase(phase, ctx, env)
             ctx.phase(env.flush)
         finally:
@@ -198,6 +198,35 @@ class C09(Check):
                             raising=raising, kind='blocks-shared')
                 count += 4
         ctx.notes['block_histories'] = count
+
+    def around(self, ctx, env):
+        """edits that go around the DOM methods (known findings C09-raw-list-edit, C09-rule-reinserted): the model
+        (Model/SheetRaw.lean) mirrors them; legitimate operations follow the raw edits"""
+        S = Spec
+        mar = S('margin', pre='@top-left')
+        base = ('text', [S('import'), S('style'), S('media', kids=[S('style'), S('comment'), S('page', kids=[mar])]), S('fontface')])
+        tail = [('add', S('style'), 0), ('add', S('import'), 0), ('del', 0), ('text', [S('style')])]
+        count = 0
+        for raising in (True, False):
+            for i in range(-4, 4):
+                env.history([base, ('rawdel', (), i)] + tail, raising=raising, kind='around-rawdel')
+                count += 1
+            for p, m in (((2,), 3), ((2, 2), 1)):
+                for i in range(-m, m):
+                    env.history([base, ('rawdel', p, i), ('nins', p, S('style') if len(p) == 1 else mar, None, 0), ('ndel', p, 0),
+                                 ('del', 2)], raising=raising, kind='around-rawdel')
+                    count += 1
+            for k in ('style', 'import', 'charset', 'comment', 'variables', 'fontface', 'unknown'):
+                for i in (-6, -1, 0, 1, 4, 9):
+                    env.history([base, ('rawins', ops_mod.basic_spec(k), i)] + tail, raising=raising, kind='around-rawins')
+                    count += 1
+            for p in ((0,), (1,), (3,), (2, 0), (2, 1), (2, 2, 0)):
+                for i in (None, 0, 1, 2, 4, 7):
+                    env.history([base, ('reins', p, i)], raising=raising, kind='around-reinsert')
+                    env.history([base, ('del', 0), ('reins', p if p[0] < 1 else (p[0] - 1,) + p[1:], i)], raising=raising,
+                                kind='around-reinsert')
+                    count += 2
+        ctx.notes['around_histories'] = count
 
     def random_walks(self, ctx, env):
         rng = ctx.sub_rng('walks')
